@@ -176,6 +176,17 @@ func runLibOnce(c *core.Ctx, r *request) (out runOut) {
 			ch := utils.ReadMultiTrees(bufio.NewReader(strings.NewReader(r.files["tree"])), utils.FORMAT_NEWICK)
 			s, err := nexus.WriteNexus(ch, arg(0) == "translate")
 			fmt.Fprintf(&b, "%v\n%s", err, s)
+		case "lib-reroot-outgroup-nonmono":
+			t := parseTree(r.files["tree"])
+			err := t.RerootOutGroup(false, false, r.args...)
+			fmt.Fprintf(&b, "%v\n%s\n", err, t.Newick())
+			t2 := parseTree(r.files["tree"])
+			n, edges, mono, err2 := t2.LeastCommonAncestorUnrooted(nil, r.args...)
+			fmt.Fprintf(&b, "%v %v %d", err2, mono, len(edges))
+			if n != nil {
+				fmt.Fprintf(&b, " %s %d", n.Name(), n.Nneigh())
+			}
+			b.WriteString("\n")
 		case "lib-tipbag":
 			t := parseTree(r.files["tree"])
 			tb := tree.NewTipBag()
@@ -252,6 +263,10 @@ func libTemplates(c *core.Ctx, in *inputs) []*request {
 	add("lib-nexus", map[string]string{"tree": in.multi}, "translate")
 	add("lib-nexus", map[string]string{"tree": in.multi}, "")
 	add("lib-tipbag", map[string]string{"tree": in.tree})
+	for k := 0; k < 3; k++ {
+		perm := c.G.R.Perm(len(in.tips))
+		add("lib-reroot-outgroup-nonmono", map[string]string{"tree": in.named}, in.tips[perm[0]], in.tips[perm[1]], in.tips[perm[2]])
+	}
 	add("lib-tipindex", map[string]string{"tree": in.tree, "tree2": in.tree2})
 	add("lib-merge", map[string]string{"tree": in.rooted, "tree2": in.rooted2})
 	return out
